@@ -96,6 +96,17 @@ theorem interface_never_removed (an : AccountNames) (old new : Program) (o n : D
   simp only [validate, ho, hn] at h
   exact iface_live _ o n (checkDecl_nil _ o n h) x j hj hk
 
+/-- A nested declaration (at any depth) disappears only when it, or a declaration containing it, is named
+by a `#removedType` pragma of the new containing declaration: this is what the hypothesis `pathsLive` of
+`values_stay_typed_partial` excludes, and nothing else. -/
+theorem live_unless_removed (an : AccountNames) (old new : Program) (o n : Decl)
+    (ho : old.root = some o) (hn : new.root = some n) (hnd : NoDupNames n) (h : validate an old new = [])
+    (p : List String) (od : Decl) (hp : lookupPath o p = some od) (hnr : NotRemoved n p) :
+    lookupPath n p ≠ none := by
+  simp only [validate, ho, hn] at h
+  obtain ⟨nd, hnd'⟩ := live_of_notRemoved _ p o n h hnd od hp hnr
+  simp [hnd']
+
 /-- **Stored values stay typed.**  If the update is accepted, a value well typed under the old version
 — composites with the fields their declaration lists, enums with a raw value in range, values at
 intersection types `{I, J}` by (transitive) conformance, optionals, arrays, dictionaries of them — whose
@@ -212,5 +223,6 @@ example : NoDupNames cNew := by
     rcases this with rfl | rfl | rfl | rfl | rfl <;> simp [eE', tT, sS', iJ, iI, Decl.composites, Decl.attachments, Decl.interfaces] at h2
 
 example : enumCase ⟨cOld, []⟩ ["E"] 1 = some "b" := by decide
+example : NotRemoved cNew ["S"] := ⟨by decide, fun _ _ => trivial⟩
 
 end Verif.Properties.C27
